@@ -1,0 +1,7 @@
+//go:build !verif
+
+package fs
+
+// verifWriteFileOp marks a crash point of WriteFile for the verification harness; without the "verif" build tag it
+// is an empty function that the compiler inlines away.
+func verifWriteFileOp(string, string) {}
